@@ -10,3 +10,4 @@ cd "$(dirname "$0")"
 ./seed_all.sh seeded/round4
 ./seed_all.sh seeded/round5
 ./seed_all.sh seeded/round6
+./seed_all.sh seeded/round7
